@@ -1,4 +1,6 @@
+mod ast;
 mod core;
+mod gen_syn;
 mod jr;
 mod props;
 
@@ -43,6 +45,10 @@ fn real_main(args: Vec<String>) -> i32 {
 			run.write_evidence()
 		}
 		"replay" => props::replay(&args[2]),
+		"parse" => {
+			props::c06::debug(&args[2]);
+			0
+		}
 		"eval" => {
 			println!("{}", jr::eval_default(&args[2]).short());
 			0
